@@ -18,7 +18,7 @@ ASSUMPTIONS = [
     "slices are compared with the dot-bracket text cached on the object by elements itself (judged by C01)",
 ]
 REQUIRED_MONITORS = ["BpSeq.elements"]
-REQUIRED_CLAUSES = ["transient.strands-are-slices-of-own-dot-bracket", "stems.maximal-runs", "hairpins.exact", "loops.sound", "unpaired.covered-once", "strands.slices"]
+REQUIRED_CLAUSES = ["cli.printed-strands-are-slices-of-the-printed-notation", "transient.strands-are-slices-of-own-dot-bracket", "stems.maximal-runs", "hairpins.exact", "loops.sound", "unpaired.covered-once", "strands.slices"]
 LANDMARKS = {
     "hairpin": ("BpSeq.elements", "hairpins.append"),
     "loop": ("BpSeq.elements", "loops.append(Loop(loop))"),
@@ -192,6 +192,17 @@ def cases(shard, nshards, seed, tier):
         for order in ("fault-then-healthy", "healthy-then-fault"):
             if mine():
                 yield {"family": "transient-fault", "name": name, "n": n, "pairs": pairs, "order": order}
+    # the command-line tool: what it prints (full notation + element lines) must be consistent with itself and
+    # with the input, for BPSEQ input and for dot-bracket input written with other levels than the library's own
+    cli = [(name, n, pairs) for name, n, pairs in gen2d.hostile() if name in ("H-type-short-first", "kissing", "pk-multiloop", "isolated-mix", "bulge1", "triangle-short-first", "nopairs")]
+    for i in range(10 if tier == "quick" else 150):
+        rng = random.Random(f"{seed}:C07:cli:{i}")
+        n, pairs = gen2d.random_stems(rng, rng.randint(1, 6), maxlen=rng.choice([1, 3, 6]), spacer=(0, 3), shape=rng.choice([None, "nested", "chain"]))
+        cli.append((f"r{i}", n, pairs))
+    for name, n, pairs in cli:
+        for how in ("bpseq", "dbn-fcfs-levels", "dbn-levels-raised", "dbn-own-notation"):
+            if mine():
+                yield {"family": "cli-motif-extractor", "name": name, "n": n, "pairs": pairs, "input": how}
     # multiloop-rich: random non-crossing matchings
     nml = 500 if tier == "quick" else 10000
     for i in range(nml):
@@ -245,8 +256,84 @@ def _transient(case, rec, n, pairs):
     rec.check("transient.strands-are-slices-of-own-dot-bracket", bad is None, lambda: det({"strand": bad, "dot_bracket": text}))
 
 
+def _cli(case, rec, n, pairs):
+    """motif_extractor.main in-process: parse what it prints."""
+    import contextlib
+    import io
+    import os
+    import sys
+    import tempfile
+
+    from rnapolis import motif_extractor
+
+    b = mon2d.make_bpseq(n, pairs)
+    f = mon2d.facts(mon2d.snapshot(b))
+    if not mon2d.levels_ok(f) or max(o2d.fcfs_levels(f["reg"]), default=0) >= 28:
+        return
+    d = tempfile.mkdtemp(prefix="vmon-c07-")
+    try:
+        how = case["input"]
+        if how == "bpseq":
+            path = os.path.join(d, "in.bpseq")
+            open(path, "w").write(str(b) + "\n")
+            argv = ["--bpseq", path]
+        else:
+            fl = o2d.fcfs_levels(f["reg"])
+            lev = fl if how == "dbn-fcfs-levels" else [l + 1 for l in fl]
+            st = ["."] * n
+            if how == "dbn-own-notation":
+                st = list(mon2d.make_bpseq(n, pairs).dot_bracket.structure)
+            else:
+                for stem, l in zip(f["stems"], lev):
+                    for i, j in stem:
+                        st[i - 1], st[j - 1] = o2d.OPEN[l], o2d.CLOSE[l]
+            path = os.path.join(d, "in.dbn")
+            open(path, "w").write(">x\n" + f["seq"] + "\n" + "".join(st) + "\n")
+            argv = ["--dbn", path]
+        old, buf = sys.argv, io.StringIO()
+        sys.argv = ["motif_extractor"] + argv
+        try:
+            with contextlib.redirect_stdout(buf):
+                motif_extractor.main()
+            err = None
+        except BaseException as e:
+            err = repr(e)
+        finally:
+            sys.argv = old
+        out = buf.getvalue().splitlines()
+        det = lambda extra=None: {"n": n, "pairs": pairs, "input": how, "info": extra, "stdout": out[:12]}
+        if not rec.check("cli.runs", err is None and len(out) >= 3 and out[0] == "Full dot-bracket:", lambda: det(err)):
+            return
+        seq, text = out[1], out[2]
+        dec, why = o2d.decode(text)
+        rec.check("cli.printed-notation-encodes-the-input", seq == f["seq"] and dec is not None and set(dec) == set(pairs), lambda: det(why))
+        bad = None
+        for line in out[3:]:
+            tok = line.split(" ")
+            fields = tok[1:]
+            if len(fields) % 4:
+                bad = ("unparsable element line", line)
+                break
+            for q in range(0, len(fields), 4):
+                first, last, sq, sx = int(fields[q]), int(fields[q + 1]), fields[q + 2], fields[q + 3]
+                if sq != seq[first - 1 : last] or sx != text[first - 1 : last]:
+                    bad = (line, first, last, seq[first - 1 : last], text[first - 1 : last])
+                    break
+            if bad:
+                break
+        rec.check("cli.printed-strands-are-slices-of-the-printed-notation", bad is None, lambda: det(bad))
+    finally:
+        import shutil
+
+        shutil.rmtree(d, ignore_errors=True)
+
+
 def run_case(case, rec):
     n, pairs = case["n"], [tuple(p) for p in case["pairs"]]
+    if case["family"] == "cli-motif-extractor":
+        rec.mark_nontrivial(len(pairs) > 0)
+        _cli(case, rec, n, pairs)
+        return
     if case["family"] == "transient-fault":
         rec.mark_nontrivial(len(pairs) > 0)
         _transient(case, rec, n, pairs)
